@@ -142,6 +142,9 @@ func Hostile() []Seed {
 		d = append(d, 0xFF, 0xDA, 0, 2, 1, 2, 0xFF, 0xD9)
 		add(fmt.Sprintf("jpeg-sof-len%d", n), d)
 	}
+	// a valid SOF followed by a second, too short SOF: the reader panics after it has extracted metadata
+	add("jpeg-sof-then-short-sof", []byte{0xFF, 0xD8, 0xFF, 0xC0, 0, 11, 8, 0, 2, 0, 3, 1, 1, 0x11, 0, 0xFF, 0xC2, 0, 4, 8, 0, 0xFF, 0xDA, 0, 2, 0xFF, 0xD9})
+	add("jpeg-icc-then-short-sof", []byte{0xFF, 0xD8, 0xFF, 0xC0, 0, 11, 8, 0, 2, 0, 3, 1, 1, 0x11, 0, 0xFF, 0xE2, 0, 17, 'I', 'C', 'C', '_', 'P', 'R', 'O', 'F', 'I', 'L', 'E', 0, 1, 2, 'x', 0xFF, 0xC0, 0, 3, 8, 0xFF, 0xD9})
 	add("jpeg-seglen-0", []byte{0xFF, 0xD8, 0xFF, 0xE0, 0, 0, 0xFF, 0xC0, 0, 8, 8, 0, 1, 0, 1, 0, 0xFF, 0xD9})
 	add("jpeg-seglen-1", []byte{0xFF, 0xD8, 0xFF, 0xE2, 0, 1, 0xFF, 0xC2, 0, 8, 8, 0, 1, 0, 1, 0, 0xFF, 0xD9})
 	add("jpeg-app2-short", []byte{0xFF, 0xD8, 0xFF, 0xE2, 0, 15, 'I', 'C', 'C', '_', 'P', 'R', 'O', 'F', 'I', 'L', 'E', 0, 1, 0xFF, 0xC0, 0, 8, 8, 0, 1, 0, 1, 0})
